@@ -382,3 +382,386 @@ Proof.
   pose proof (tailstr_length bs). rewrite Es3. rewrite !app_length. cbn [List.length]. lia.
 Qed.
 
+
+(** * from the raw text to the scanner's input *)
+Lemma lstrip_suffix (A rest : str) : (exists c t, rest = c :: t /\ is_ws c = false) -> exists Z, lstrip (A ++ rest) = Z ++ rest.
+Proof.
+  intros (c & t & -> & Hc). induction A as [|a A IH].
+  - exists []. cbn [app]. apply lstrip_core. exact Hc.
+  - cbn [app lstrip]. destruct (is_ws a); [exact IH|]. exists (a :: A). reflexivity.
+Qed.
+
+Lemma strip_keep (A core w2 : str) : all_ws w2 ->
+  (exists c t, core = c :: t /\ is_ws c = false) -> (exists t c, core = t ++ [c] /\ is_ws c = false) ->
+  exists Z, strip (A ++ core ++ w2) = Z ++ core.
+Proof.
+  intros H2 H1 (t' & c2 & E2 & N2). destruct H1 as (c1 & t & E1 & N1).
+  destruct (lstrip_suffix A (core ++ w2)) as (Z & EZ); [exists c1, (t ++ w2); split; [rewrite E1; reflexivity|exact N1]|].
+  exists Z. unfold strip. rewrite EZ. rewrite app_assoc, rev_app_distr, (lstrip_ws (rev w2) _ (all_ws_rev w2 H2)).
+  assert (E' : lstrip (rev (Z ++ core)) = rev (Z ++ core)).
+  { rewrite E2, app_assoc, rev_app_distr. cbn [rev app]. apply lstrip_core. exact N2. }
+  rewrite E'. apply rev_involutive.
+Qed.
+
+(** the two substitutions of braces, as one map *)
+Definition unbrace (c : ascii) : ascii := if Ascii.eqb c "}"%char then rb else if Ascii.eqb c "{"%char then lb else c.
+Lemma replace_both s : replace_c "}"%char rb (replace_c "{"%char lb s) = map unbrace s.
+Proof.
+  unfold replace_c. rewrite map_map. apply map_ext. intros a. unfold unbrace.
+  destruct (Ascii.eqb_spec a "{"%char) as [->|N1]; [reflexivity|]. reflexivity.
+Qed.
+
+Definition no_brace (s : str) : Prop := ~ In "{"%char s /\ ~ In "}"%char s.
+Lemma unbrace_id s : no_brace s -> map unbrace s = s.
+Proof.
+  intros [H1 H2]. rewrite <- (map_id s) at 2. apply map_ext_in. intros a Ha. unfold unbrace.
+  destruct (Ascii.eqb_spec a "}"%char) as [->|_]; [contradiction|]. destruct (Ascii.eqb_spec a "{"%char) as [->|_]; [contradiction|reflexivity].
+Qed.
+
+(** the text of a ranking whose buckets have the printed contents [bodies], with delimiters [opn], [cls] *)
+Definition btxt (opn cls : ascii) (body : str) : str := opn :: body ++ [cls].
+Definition txt (opn cls : ascii) (bodies : list str) : str := lb :: join sep (map (btxt opn cls) bodies) ++ [rb].
+
+Definition delims (opn cls : ascii) : Prop := (opn = "{"%char /\ cls = "}"%char) \/ (opn = lb /\ cls = rb).
+
+Lemma join_map_unbrace (f : str -> str) l : (forall x, In x l -> map unbrace (f x) = bstr x) ->
+  map unbrace (join sep (map f l)) = join sep (map bstr l).
+Proof.
+  induction l as [|x l IH]; intros H; [reflexivity|]. destruct l as [|y l].
+  - cbn [map join]. apply H. left; reflexivity.
+  - change (map f (x :: y :: l)) with (f x :: f y :: map f l). change (map bstr (x :: y :: l)) with (bstr x :: bstr y :: map bstr l).
+    rewrite !join_cons2, !map_app. rewrite (H x (or_introl eq_refl)). f_equal. f_equal.
+    apply (IH (fun z Hz => H z (or_intror Hz))).
+Qed.
+
+Lemma unbrace_txt opn cls bodies : delims opn cls -> Forall no_brace bodies ->
+  map unbrace (txt opn cls bodies) = txt lb rb bodies.
+Proof.
+  intros Hd Hb. unfold txt. cbn [map]. rewrite map_app. cbn [map]. f_equal. f_equal.
+  change (btxt lb rb) with bstr. apply join_map_unbrace. intros x Hx. rewrite Forall_forall in Hb. specialize (Hb x Hx).
+  unfold btxt, bstr. cbn [map]. rewrite map_app, (unbrace_id x Hb). cbn [map].
+  destruct Hd as [[-> ->]|[-> ->]]; reflexivity.
+Qed.
+
+Lemma join_tail (x : str) l : join sep (x :: l) = x ++ List.concat (map (fun y => sep ++ y) l).
+Proof.
+  revert x; induction l as [|y l IH]; intros x; [cbn; rewrite app_nil_r; reflexivity|].
+  rewrite join_cons2, IH. cbn [map List.concat]. rewrite <- !app_assoc. reflexivity.
+Qed.
+
+Lemma txt_shape b1 bs : txt lb rb (b1 :: bs) = lb :: (bstr b1 ++ tailstr bs) ++ [rb].
+Proof.
+  unfold txt. cbn [map]. change (btxt lb rb) with bstr. rewrite join_tail. unfold tailstr. rewrite map_map. reflexivity.
+Qed.
+
+(** a text that begins with [ and ends with ] and contains no colon *)
+Lemma prepare_plain (w1 w2 T : str) : all_ws w1 -> all_ws w2 -> ~ In ":"%char T ->
+  (exists t, T = lb :: t) -> (exists t, T = t ++ [rb]) ->
+  prepare (w1 ++ T ++ w2) = map unbrace T.
+Proof.
+  intros H1 H2 Hc (t1 & E1) (t2 & E2). unfold prepare.
+  assert (S1 : exists c t, T = c :: t /\ is_ws c = false) by (exists lb, t1; split; [exact E1|reflexivity]).
+  assert (S2 : exists t c, T = t ++ [c] /\ is_ws c = false) by (exists t2, rb; split; [exact E2|reflexivity]).
+  rewrite (strip_solid w1 w2 T H1 H2 S1 S2). rewrite (split_on_none ":"%char T [] Hc). cbn [rev app last].
+  pose proof (strip_solid [] [] T (Forall_nil _) (Forall_nil _) S1 S2) as E. cbn [app] in E. rewrite app_nil_r in E. rewrite E.
+  apply replace_both.
+Qed.
+
+Lemma prepare_prefixed (A w3 w2 T : str) : all_ws w3 -> all_ws w2 -> ~ In ":"%char T ->
+  (exists t, T = lb :: t) -> (exists t, T = t ++ [rb]) ->
+  prepare (A ++ ":"%char :: w3 ++ T ++ w2) = map unbrace T.
+Proof.
+  intros H3 H2 Hc (t1 & E1) (t2 & E2). unfold prepare.
+  assert (S1 : exists c t, T = c :: t /\ is_ws c = false) by (exists lb, t1; split; [exact E1|reflexivity]).
+  assert (S2 : exists t c, T = t ++ [c] /\ is_ws c = false) by (exists t2, rb; split; [exact E2|reflexivity]).
+  set (core := ":"%char :: w3 ++ T).
+  destruct (strip_keep A core w2 H2) as (Z & EZ).
+  { exists ":"%char, (w3 ++ T). split; reflexivity. }
+  { exists (":"%char :: w3 ++ t2), rb. split; [unfold core; rewrite E2; cbn [app]; rewrite <- app_assoc; reflexivity|reflexivity]. }
+  replace (A ++ ":"%char :: w3 ++ T ++ w2) with (A ++ core ++ w2) by (unfold core; cbn [app]; rewrite <- app_assoc; reflexivity).
+  rewrite EZ. unfold core. rewrite last_split.
+  2:{ intros H. apply in_app_or in H as [H|H]; [|contradiction]. unfold all_ws in H3. rewrite Forall_forall in H3. specialize (H3 _ H). discriminate. }
+  pose proof (strip_solid w3 [] T H3 (Forall_nil _) S1 S2) as E. rewrite app_nil_r in E. rewrite E. apply replace_both.
+Qed.
+
+(** * printing and reading back a non-negative integer *)
+Definition dstep (acc : Z) (c : ascii) : Z := acc * 10 + Z.of_nat (nat_of_ascii c - 48).
+Lemma int_of_fold s : int_of s = fold_left dstep s 0.
+Proof. reflexivity. Qed.
+
+Lemma digit_char (z : Z) : 0 <= z < 10 ->
+  let d := ascii_of_nat (48 + Z.to_nat z) in is_digit d = true /\ Z.of_nat (nat_of_ascii d - 48) = z.
+Proof.
+  intros H. assert (E : exists k, (k < 10)%nat /\ z = Z.of_nat k) by (exists (Z.to_nat z); lia).
+  destruct E as (k & Hk & ->). rewrite Nat2Z.id.
+  do 10 (destruct k as [|k]; [cbv; split; reflexivity|]). lia.
+Qed.
+
+Lemma digits_fuel_spec : forall fuel z acc, (1 <= fuel)%nat -> 0 <= z < 2 ^ Z.of_nat fuel ->
+  exists D, digits_fuel fuel z acc = D ++ acc /\ D <> [] /\ forallb is_digit D = true /\
+            forall a0, fold_left dstep D a0 = a0 * 10 ^ Z.of_nat (List.length D) + z.
+Proof.
+  induction fuel as [|f IH]; intros z acc Hf Hz; [lia|]. cbn [digits_fuel].
+  assert (Hm : 0 <= z mod 10 < 10) by (apply Z.mod_pos_bound; lia).
+  destruct (digit_char (z mod 10) Hm) as [Dg Dv].
+  set (d := ascii_of_nat (48 + Z.to_nat (z mod 10))) in *.
+  destruct (Z.ltb_spec z 10) as [Lt|Ge].
+  - exists [d]. split; [reflexivity|]. split; [discriminate|]. split; [cbn [forallb]; rewrite Dg; reflexivity|].
+    intros a0. cbn [fold_left List.length]. unfold dstep. rewrite Dv. rewrite Z.mod_small by lia. change (10 ^ Z.of_nat 1) with 10. lia.
+  - assert (Hq : 0 <= z / 10 < 2 ^ Z.of_nat f).
+    { split; [apply Z.div_pos; lia|]. apply Z.div_lt_upper_bound; [lia|]. rewrite Nat2Z.inj_succ, Z.pow_succ_r in Hz by lia. lia. }
+    assert (Hf' : (1 <= f)%nat).
+    { destruct f; [|lia]. cbn in Hq. assert (1 <= z / 10) by (apply Z.div_le_lower_bound; lia). lia. }
+    destruct (IH (z / 10) (d :: acc) Hf' Hq) as (D & E & Hne & Hd & Hv).
+    exists (D ++ [d]). split; [rewrite E, <- app_assoc; reflexivity|]. split; [destruct D; discriminate|].
+    split; [rewrite forallb_app, Hd; cbn [forallb]; rewrite Dg; reflexivity|].
+    intros a0. rewrite fold_left_app. cbn [fold_left]. unfold dstep at 1. rewrite Hv, Dv, app_length. cbn [List.length].
+    rewrite Nat2Z.inj_add, Z.pow_add_r by lia. change (10 ^ Z.of_nat 1) with 10.
+    pose proof (Z.div_mod z 10 ltac:(lia)). lia.
+Qed.
+
+Theorem render_int_spec z : 0 <= z ->
+  render_int z <> [] /\ forallb is_digit (render_int z) = true /\ int_of (render_int z) = z.
+Proof.
+  intros Hz. unfold render_int. destruct (Z.ltb_spec z 0); [lia|].
+  destruct (digits_fuel_spec (S (Z.to_nat (Z.log2 z))) z [] ltac:(lia)) as (D & E & Hne & Hd & Hv).
+  - split; [lia|]. destruct (Z.eq_dec z 0) as [->|Nz]; [cbn; lia|].
+    pose proof (Z.log2_spec z ltac:(lia)) as [_ Hu]. pose proof (Z.log2_nonneg z).
+    rewrite Nat2Z.inj_succ, Z2Nat.id by lia. exact Hu.
+  - rewrite E, app_nil_r. split; [exact Hne|]. split; [exact Hd|]. rewrite int_of_fold, Hv. lia.
+Qed.
+
+(** * names *)
+Definition forbidden (c : ascii) : bool :=
+  Ascii.eqb c lb || Ascii.eqb c rb || Ascii.eqb c "{"%char || Ascii.eqb c "}"%char || Ascii.eqb c ","%char || Ascii.eqb c ":"%char.
+
+(** a printable string name: no delimiter of the format inside, no white space at either end *)
+Definition gstr (s : str) : Prop :=
+  forallb (fun c => negb (forbidden c)) s = true /\
+  (exists c t, s = c :: t /\ is_ws c = false) /\ (exists t c, s = t ++ [c] /\ is_ws c = false).
+
+Lemma digit_plain c : is_digit c = true -> forbidden c = false /\ is_ws c = false.
+Proof. destruct c as [[] [] [] [] [] [] [] []]; cbv; intros H; try discriminate; split; reflexivity. Qed.
+
+Lemma digits_gstr D : D <> [] -> forallb is_digit D = true -> gstr D.
+Proof.
+  intros Hne Hd. rewrite forallb_forall in Hd. split; [|split].
+  - apply forallb_forall. intros c Hc. destruct (digit_plain c (Hd c Hc)) as [F _]. rewrite F. reflexivity.
+  - destruct D as [|c t]; [contradiction|]. exists c, t. split; [reflexivity|]. apply (digit_plain c). apply Hd. left; reflexivity.
+  - destruct (exists_last Hne) as (t & c & ->). exists t, c. split; [reflexivity|]. apply (digit_plain c). apply Hd. apply in_or_app. right. left. reflexivity.
+Qed.
+
+Inductive okname : name -> Prop :=
+| ok_int z : 0 <= z -> okname (NInt z)
+| ok_str s : gstr s -> isdigit s = false -> okname (NStr s).
+
+Notation rstr := render_name.
+
+Lemma okname_gstr x : okname x -> gstr (rstr x).
+Proof.
+  intros [z Hz|s Hs _]; cbn [render_name]; [|exact Hs].
+  destruct (render_int_spec z Hz) as (Hne & Hd & _). apply digits_gstr; assumption.
+Qed.
+
+Lemma gstr_not c s : gstr s -> forbidden c = true -> ~ In c s.
+Proof. intros (H & _) Hc Hin. rewrite forallb_forall in H. specialize (H c Hin). rewrite Hc in H. discriminate. Qed.
+
+Lemma gstr_good_name s : gstr s -> good_name s.
+Proof. intros H. split; [apply (gstr_not _ s H); reflexivity|exact (proj2 H)]. Qed.
+
+Lemma in_join c l : In c (join sep l) -> In c sep \/ exists x, In x l /\ In c x.
+Proof.
+  induction l as [|x l IH]; [intros []|]. destruct l as [|y l].
+  - cbn [join]. intros H. right. exists x. split; [left; reflexivity|exact H].
+  - rewrite join_cons2. intros H. apply in_app_or in H as [H|H]; [right; exists x; split; [left; reflexivity|exact H]|].
+    apply in_app_or in H as [H|H]; [left; exact H|]. destruct (IH H) as [H'|(z & Hz & Hc)]; [left; exact H'|].
+    right. exists z. split; [right; exact Hz|exact Hc].
+Qed.
+
+Definition body (b : list name) : str := join sep (map rstr b).
+
+Lemma body_free c b : forbidden c = true -> c <> ","%char -> Forall okname b -> ~ In c (body b).
+Proof.
+  intros Hc Hcomma Hb Hin. apply in_join in Hin as [Hs|(x & Hx & Hcx)].
+  - unfold sep in Hs. destruct Hs as [E|[E|[]]]; [congruence|subst c; discriminate].
+  - apply in_map_iff in Hx as (n & <- & Hn). rewrite Forall_forall in Hb. exact (gstr_not c _ (okname_gstr n (Hb n Hn)) Hc Hcx).
+Qed.
+
+Lemma body_spec b : b <> [] -> Forall okname b ->
+  body b <> [] /\ good_body (body b) /\ no_brace (body b) /\ ~ In ":"%char (body b) /\ pb (body b) = map rstr b.
+Proof.
+  intros Hne Hb. destruct b as [|x b]; [contradiction|].
+  assert (G : Forall good_name (map rstr (x :: b))).
+  { rewrite Forall_map. eapply Forall_impl; [|exact Hb]. intros n Hn. apply gstr_good_name, okname_gstr. exact Hn. }
+  assert (P : parse_bucket (body (x :: b)) = Some (map rstr (x :: b))) by (unfold body; cbn [map] in *; apply parse_bucket_join; exact G).
+  split; [|split; [|split; [|split]]].
+  - unfold body. cbn [map]. rewrite join_tail. pose proof (okname_gstr x (Forall_inv Hb)) as (_ & (c & t & E & _) & _). rewrite E. discriminate.
+  - split; [apply body_free; [reflexivity|discriminate|exact Hb]|]. split; [apply body_free; [reflexivity|discriminate|exact Hb]|]. rewrite P. discriminate.
+  - split; apply body_free; try reflexivity; try discriminate; exact Hb.
+  - apply body_free; [reflexivity|discriminate|exact Hb].
+  - unfold pb. rewrite P. reflexivity.
+Qed.
+
+Lemma render_txt opn cls r : Forall (fun b => b <> []) r -> render opn cls r = txt opn cls (map body r).
+Proof.
+  intros H. unfold render, txt. f_equal. f_equal. change (list_ascii_of_string ", ") with sep. f_equal.
+  rewrite map_map. apply map_ext_in. intros b Hb. rewrite Forall_forall in H. specialize (H b Hb).
+  unfold render_bucket, btxt, body. destruct b; [contradiction|]. reflexivity.
+Qed.
+
+(** * parsing the text of a ranking *)
+Definition okranking (r : list (list name)) : Prop := Forall (fun b => b <> [] /\ Forall okname b) r.
+
+Lemma in_txt c opn cls bodies : In c (txt opn cls bodies) ->
+  c = lb \/ c = rb \/ c = opn \/ c = cls \/ In c sep \/ exists b, In b bodies /\ In c b.
+Proof.
+  unfold txt. intros [H|H]; [left; symmetry; exact H|]. apply in_app_or in H as [H|[H|[]]]; [|right; left; symmetry; exact H].
+  apply in_join in H as [H|(x & Hx & Hc)]; [right; right; right; right; left; exact H|].
+  apply in_map_iff in Hx as (b & <- & Hb). unfold btxt in Hc. destruct Hc as [Hc|Hc]; [right; right; left; symmetry; exact Hc|].
+  apply in_app_or in Hc as [Hc|[Hc|[]]]; [|right; right; right; left; symmetry; exact Hc].
+  right; right; right; right; right. exists b. split; assumption.
+Qed.
+
+Theorem parse_of_prepare opn cls r raw : delims opn cls -> okranking r ->
+  prepare raw = map unbrace (render opn cls r) -> parse raw = POk (map (map rstr) r).
+Proof.
+  intros Hd Hr Ep.
+  assert (Hne : Forall (fun b => b <> []) r) by (eapply Forall_impl; [|exact Hr]; intros b [H _]; exact H).
+  rewrite (render_txt opn cls r Hne) in Ep.
+  assert (Hnb : Forall no_brace (map body r)).
+  { rewrite Forall_map. eapply Forall_impl; [|exact Hr]. intros b [H1 H2]. exact (proj1 (proj2 (proj2 (body_spec b H1 H2)))). }
+  rewrite (unbrace_txt opn cls _ Hd Hnb) in Ep.
+  destruct r as [|b1 bs].
+  - (* the empty ranking prints as [] *)
+    cbn in Ep. unfold parse. rewrite Ep. reflexivity.
+  - cbn [map] in Ep. rewrite txt_shape in Ep. destruct (Forall_inv Hr) as [N1 O1]. pose proof (Forall_inv_tail Hr) as Hr'.
+    destruct (body_spec b1 N1 O1) as (B1 & G1 & _ & _ & P1).
+    rewrite (parse_text raw (body b1) (map body bs) Ep B1 G1).
+    + rewrite P1, map_map. cbn [map]. f_equal. f_equal. apply map_ext_in. intros b Hb.
+      unfold okranking in Hr'. rewrite Forall_forall in Hr'. destruct (Hr' b Hb) as [Nb Ob].
+      exact (proj2 (proj2 (proj2 (proj2 (body_spec b Nb Ob))))).
+    + rewrite Forall_map. eapply Forall_impl; [|exact Hr']. intros b [Nb Ob]. destruct (body_spec b Nb Ob) as (Bb & Gb & _). split; assumption.
+Qed.
+
+Lemma render_no_colon opn cls r : delims opn cls -> okranking r -> ~ In ":"%char (render opn cls r).
+Proof.
+  intros Hd Hr Hin.
+  assert (Hne : Forall (fun b => b <> []) r) by (eapply Forall_impl; [|exact Hr]; intros b [H _]; exact H).
+  rewrite (render_txt opn cls r Hne) in Hin. apply in_txt in Hin as [H|[H|[H|[H|[H|(b & Hb & Hc)]]]]]; try discriminate.
+  - destruct Hd as [[-> _]|[-> _]]; discriminate.
+  - destruct Hd as [[_ ->]|[_ ->]]; discriminate.
+  - unfold sep in H. destruct H as [H|[H|[]]]; discriminate.
+  - apply in_map_iff in Hb as (b' & <- & Hb'). unfold okranking in Hr. rewrite Forall_forall in Hr. destruct (Hr b' Hb') as [Nb Ob].
+    exact (proj1 (proj2 (proj2 (proj2 (body_spec b' Nb Ob)))) Hc).
+Qed.
+
+Lemma render_ends opn cls r : (exists t, render opn cls r = lb :: t) /\ (exists t, render opn cls r = t ++ [rb]).
+Proof.
+  unfold render. split; [eexists; reflexivity|]. exists (lb :: join (list_ascii_of_string ", ") (map (render_bucket opn cls) r)). reflexivity.
+Qed.
+
+(** surrounded by white space ... *)
+Theorem parse_render opn cls r w1 w2 : delims opn cls -> okranking r -> all_ws w1 -> all_ws w2 ->
+  parse (w1 ++ render opn cls r ++ w2) = POk (map (map rstr) r).
+Proof.
+  intros Hd Hr H1 H2. apply (parse_of_prepare opn cls r _ Hd Hr).
+  destruct (render_ends opn cls r) as [E1 E2]. apply prepare_plain; try assumption. apply render_no_colon; assumption.
+Qed.
+
+(** ... and after any prefix that ends with a colon *)
+Theorem parse_render_prefixed opn cls r A w3 w2 : delims opn cls -> okranking r -> all_ws w3 -> all_ws w2 ->
+  parse (A ++ ":"%char :: w3 ++ render opn cls r ++ w2) = POk (map (map rstr) r).
+Proof.
+  intros Hd Hr H3 H2. apply (parse_of_prepare opn cls r _ Hd Hr).
+  destruct (render_ends opn cls r) as [E1 E2]. apply prepare_prefixed; try assumption. apply render_no_colon; assumption.
+Qed.
+
+(** * Ranking.from_string *)
+Lemma name_eqb_eq a b : name_eqb a b = true -> a = b.
+Proof.
+  destruct a as [x|x], b as [y|y]; cbn [name_eqb]; try discriminate.
+  - intros H. apply Z.eqb_eq in H. congruence.
+  - intros H. apply str_eqb_eq in H. congruence.
+Qed.
+
+Lemma nmem_false x l : ~ In x l -> nmem x l = false.
+Proof.
+  intros H. unfold nmem. destruct (existsb (name_eqb x) l) eqn:E; [|reflexivity]. exfalso.
+  apply existsb_exists in E as (y & Hy & Ey). apply name_eqb_eq in Ey. subst. contradiction.
+Qed.
+
+Lemma ndedup_nodup l : NoDup l -> ndedup l = l.
+Proof.
+  induction 1 as [|x l Hx _ IH]; [reflexivity|]. cbn [ndedup]. rewrite (nmem_false x l Hx), IH. reflexivity.
+Qed.
+
+Lemma disjoint_nodup : forall bs seen, NoDup (List.concat bs) -> (forall x, In x (List.concat bs) -> ~ In x seen) ->
+  disjoint_buckets seen bs = true.
+Proof.
+  induction bs as [|b bs IH]; intros seen Nd Hs; [reflexivity|]. cbn [disjoint_buckets List.concat] in *.
+  destruct (NoDup_app_inv _ _ Nd) as (Nb & Nbs & Dj). apply andb_true_iff. split.
+  - apply forallb_forall. intros x Hx. rewrite nmem_false; [reflexivity|]. apply Hs. apply in_or_app. left. exact Hx.
+  - apply IH; [exact Nbs|]. intros x Hx Hin. apply in_app_or in Hin as [Hin|Hin]; [exact (Dj x Hin Hx)|].
+    exact (Hs x ltac:(apply in_or_app; right; exact Hx) Hin).
+Qed.
+
+Definition all_int_names (r : list (list name)) : Prop := forall b x, In b r -> In x b -> exists z, x = NInt z.
+Definition all_str_names (r : list (list name)) : Prop := forall b x, In b r -> In x b -> exists s, x = NStr s.
+
+Lemma isdigit_render_int z : 0 <= z -> isdigit (render_int z) = true.
+Proof.
+  intros Hz. destruct (render_int_spec z Hz) as (Hne & Hd & _). unfold isdigit. destruct (render_int z); [contradiction|exact Hd].
+Qed.
+
+Theorem typing_roundtrip r : okranking r -> (all_int_names r \/ all_str_names r) -> NoDup (List.concat r) ->
+  let bsl := map (map rstr) r in
+  let all_ints := forallb (fun b => forallb isdigit b) bsl in
+  let named := map (fun b => ndedup (map (fun e => if all_ints then NInt (int_of e) else NStr e) b)) bsl in
+  named = r /\ disjoint_buckets [] named = true.
+Proof.
+  intros Hr Hh Nd bsl all_ints named.
+  assert (Hok : forall b x, In b r -> In x b -> okname x).
+  { intros b x Hb Hx. unfold okranking in Hr. rewrite Forall_forall in Hr. destruct (Hr b Hb) as [_ H]. rewrite Forall_forall in H. exact (H x Hx). }
+  assert (Nb : forall b, In b r -> NoDup b).
+  { intros b Hb. apply in_split in Hb as (r1 & r2 & ->). rewrite concat_app in Nd. cbn [List.concat] in Nd.
+    destruct (NoDup_app_inv _ _ Nd) as (_ & N2 & _). destruct (NoDup_app_inv _ _ N2) as (N3 & _ & _). exact N3. }
+  assert (Conv : forall b x, In b r -> In x b -> (if all_ints then NInt (int_of (rstr x)) else NStr (rstr x)) = x).
+  { destruct Hh as [Hi|Hs].
+    - assert (Ea : all_ints = true).
+      { unfold all_ints, bsl. apply forallb_forall. intros sb Hsb. apply in_map_iff in Hsb as (b & <- & Hb).
+        apply forallb_forall. intros e He. apply in_map_iff in He as (x & <- & Hx).
+        destruct (Hi b x Hb Hx) as (z & ->). pose proof (Hok b _ Hb Hx) as O. inversion O; subst. cbn [render_name]. apply isdigit_render_int. assumption. }
+      rewrite Ea. intros b x Hb Hx. destruct (Hi b x Hb Hx) as (z & ->). pose proof (Hok b _ Hb Hx) as O. inversion O; subst.
+      cbn [render_name]. destruct (render_int_spec z ltac:(assumption)) as (_ & _ & E). rewrite E. reflexivity.
+    - destruct r as [|b1 bs]; [intros b x []|].
+      assert (Ea : all_ints = false).
+      { unfold all_ints, bsl. cbn [map forallb]. apply andb_false_iff. left.
+        unfold okranking in Hr. destruct (Forall_inv Hr) as [N1 _]. destruct b1 as [|x b1]; [contradiction|]. cbn [map forallb].
+        destruct (Hs (x :: b1) x (or_introl eq_refl) (or_introl eq_refl)) as (s & ->).
+        pose proof (Hok (NStr s :: b1) (NStr s) (or_introl eq_refl) (or_introl eq_refl)) as O. inversion O; subst. cbn [render_name].
+        apply andb_false_iff. left. assumption. }
+      rewrite Ea. intros b x Hb Hx. destruct (Hs b x Hb Hx) as (s & ->). reflexivity. }
+  assert (En : named = r).
+  { unfold named, bsl. rewrite map_map. rewrite <- (map_id r) at 2. apply map_ext_in. intros b Hb.
+    rewrite map_map. rewrite (map_ext_in _ (fun x => x)); [rewrite map_id; apply ndedup_nodup; exact (Nb b Hb)|].
+    intros x Hx. exact (Conv b x Hb Hx). }
+  split; [exact En|]. rewrite En. apply disjoint_nodup; [exact Nd|intros x _ []].
+Qed.
+
+(** * the round trip through a string *)
+Definition printable (r : list (list name)) : Prop :=
+  okranking r /\ (all_int_names r \/ all_str_names r) /\ NoDup (List.concat r).
+
+Lemma from_string_of_parse raw r : printable r -> parse raw = POk (map (map rstr) r) -> from_string raw = POk r.
+Proof.
+  intros (Hr & Hh & Nd) Ep. unfold from_string. rewrite Ep.
+  destruct (typing_roundtrip r Hr Hh Nd) as [En Ed]. cbv zeta in En, Ed. rewrite Ed, En. reflexivity.
+Qed.
+
+Theorem roundtrip_string opn cls r w1 w2 : delims opn cls -> printable r -> all_ws w1 -> all_ws w2 ->
+  from_string (w1 ++ render opn cls r ++ w2) = POk r.
+Proof. intros Hd Hp H1 H2. apply (from_string_of_parse _ r Hp). apply parse_render; try assumption. exact (proj1 Hp). Qed.
+
+Theorem roundtrip_string_prefixed opn cls r A w3 w2 : delims opn cls -> printable r -> all_ws w3 -> all_ws w2 ->
+  from_string (A ++ ":"%char :: w3 ++ render opn cls r ++ w2) = POk r.
+Proof. intros Hd Hp H3 H2. apply (from_string_of_parse _ r Hp). apply parse_render_prefixed; try assumption. exact (proj1 Hp). Qed.
